@@ -589,6 +589,14 @@ def fixed_workloads():
         _call(0, "pd", {"a": [1, 2]}, ctx="SCHEMA_ONLY"),
         _call(1, "pd", {"a": [-1, 2]}),
     ]))
+    # check options of a *shared* check object (dataframe-level checks are not copied per call) together with
+    # drop_invalid_rows: every call drops what it drops alone, and the option is as it was afterwards
+    W.append(_wl("pd-shared-noop/drop+n_failure_cases", [
+        _schema("pd", [_col("a")], checks=[["gt", 0, {"n_failure_cases": 1}]], drop=True),
+    ], [
+        _call(0, "pd", {"a": [1, -2, 3, -4]}, lazy=True),
+        _call(0, "pd", {"a": [1, 2, -2, 3, -3]}, lazy=True),
+    ]))
     # ---- thorough tier additions
     W.append(_wl("pd-shared-noop/schema-coerce+index+filter/lazyfail", [
         _schema("pd", [_col("a", checks=gt0), _col("b", "str", required=False)], coerce=True, strict="filter",
@@ -649,7 +657,7 @@ def fixed_workloads():
     return W
 
 
-QUICK = 14
+QUICK = 15
 
 
 def _tier_workloads(tier):
@@ -723,6 +731,14 @@ def _overlap_workloads():
         ], [
             _call(0, "pl_df", {"a": [1, 2]}),
             _call(1, "pl_df", {"b": ["x", "y"]}),
+        ]),
+        # one shared dataframe-level check object with an option, under drop_invalid_rows (a window opened around the
+        # check call on one thread crossed by the same window on the other)
+        _wl("pd-shared-noop/drop+n_failure_cases", [
+            _schema("pd", [_col("a")], checks=[["gt", 0, {"n_failure_cases": 1}]], drop=True),
+        ], [
+            _call(0, "pd", {"a": [1, -2, 3, -4]}, lazy=True),
+            _call(0, "pd", {"a": [1, 2, -2, 3, -3]}, lazy=True),
         ]),
     ]
 
